@@ -39,6 +39,9 @@ class Ctx:
         self.prop, self.tier, self.seed = prop, tier, seed
         self.repo = os.environ.get("GIL_ROOT", "/repo")
         self.include = os.path.join(self.repo, "include")
+        if not os.path.isfile(os.path.join(self.include, "boost", "gil.hpp")):
+            # never let g++ fall back silently to the system's /usr/include/boost/gil (a different GIL)
+            raise RuntimeError("tree under test has no include/boost/gil.hpp: GIL_ROOT=%s" % self.repo)
         self.t0 = time.time()
         self.scratch = tempfile.mkdtemp(prefix="gilverif.%s." % prop, dir=os.environ.get("TMPDIR", "/tmp"))
         self.lean = os.path.join(VERIF, "lean")
@@ -125,17 +128,27 @@ def property_theorems(ctx, module_rel=None):
     names = re.findall(r"^\s*theorem\s+([^\s:(\[{]+)", src, re.M)
     return [(ns + "." + n) if ns else n for n in names]
 
+def import_closure(ctx, modules):
+    """source files of the project-local modules (GilVerif.*, Driver.*) reachable from `modules`"""
+    seen, todo, files = set(), list(modules), []
+    while todo:
+        m = todo.pop()
+        if m in seen or not (m.startswith("GilVerif") or m.startswith("Driver")): continue
+        seen.add(m)
+        p = os.path.join(ctx.lean, *m.split(".")) + ".lean"
+        if not os.path.isfile(p): continue
+        files.append(p)
+        for im in re.findall(r"^\s*(?:public\s+)?import\s+([\w.]+)", open(p).read(), re.M): todo.append(im)
+    return files
+
 def audit(ctx, modules, theorems):
     """forbidden-token grep over all library sources + #print axioms on every property theorem"""
     ok = True
-    for root, _, files in os.walk(os.path.join(ctx.lean, "GilVerif")):
-        for fn in files:
-            if not fn.endswith(".lean"): continue
-            p = os.path.join(root, fn)
-            m = FORBIDDEN.search(strip_comments(open(p).read()))
-            if m:
-                ctx.broken.append(("audit", os.path.relpath(p, ctx.lean), "forbidden token %r" % m.group(0).strip()))
-                ok = False
+    for p in import_closure(ctx, list(modules) + ["GilVerif.Model.%s" % ctx.prop, "Driver.%s" % ctx.prop]):
+        m = FORBIDDEN.search(strip_comments(open(p).read()))
+        if m and not (os.path.relpath(p, ctx.lean).startswith("Driver") and m.group(0).strip() in ("partial",)):
+            ctx.broken.append(("audit", os.path.relpath(p, ctx.lean), "forbidden token %r" % m.group(0).strip()))
+            ok = False
     f = os.path.join(ctx.scratch, "Audit_%s.lean" % ctx.prop)
     with open(f, "w") as fh:
         for mod in modules: fh.write("import %s\n" % mod)
@@ -353,6 +366,9 @@ def standard_proof_steps(ctx, modules=None, targets=None):
         if rc != 0:
             ctx.broken.append(("build", "drv_%s" % prop, out[-800:]))
         failed = {b[1] for b in ctx.broken if b[0] == "theorem"}
-        return len(theorems), len([t for t in theorems if t.split(".")[-1] not in failed and t not in failed]) if failed else 0
+        short = {t.split(".")[-1] for t in theorems}
+        if not failed or not failed <= short:
+            return len(theorems), 0      # a helper lemma (or the build itself) failed: nothing of this module is checked
+        return len(theorems), len([t for t in theorems if t.split(".")[-1] not in failed])
     ok, good = audit(ctx, modules or ["GilVerif.Props.%s" % prop], theorems)
     return len(theorems), good
